@@ -62,14 +62,16 @@ func goVal(n int) any {
 		v = n
 	case 2:
 		v = "s" + strconv.Itoa(n)
+	// identity-bearing values (pointers, maps, slices) of different tokens have EQUAL contents: a reflect.DeepEqual-style
+	// shortcut that confuses two of them is then observable (they are told apart by identity only)
 	case 3:
 		p := new(int)
-		*p = n
+		*p = 3
 		v = p
 	case 4:
-		v = map[string]any{"v": n}
+		v = map[string]any{"v": 4}
 	case 5:
-		v = []any{n, "x"}
+		v = []any{5, "x"}
 	case 6:
 		v = pair{A: n}
 	case 7:
